@@ -16,6 +16,8 @@ for p in mutants/*.patch; do
     C02-delay*) checks="C02 C07";;
     C07-*) checks="C07 C13";;
     C17-*) checks="C17";;
+    C01-switch-counts*) checks="C01 C11";;
+    C12-*) checks="C12";;
     C14-*) checks="C14";;
   esac
   ./run.sh $p $checks 2>&1 | grep -v "^WARNING" >> $out
